@@ -169,4 +169,74 @@ theorem full_200_when_no_range_or_stale (isHead iro : Bool) (rng : Option Str) (
   · exact prepare_stale _ _ _
   · exact prepare_no_range _ _ _
 
+/-- **The chunked read loop sends exactly `count` bytes from `offset`**: for every positive
+`chunk_size`, `_sendfile_fallback` hands the writer `file[offset:][:count]`, however the reads
+fall. -/
+theorem sendLoop_exact (cs : Nat) (hcs : 0 < cs) (file : Bytes) (count : Nat) :
+    sendLoop cs (count + 1) file count = file.take count :=
+  sendLoop_take cs hcs _ _ _ (by omega)
+
+/-- **The body of a 206 is the announced slice, of a 200 the whole file.** -/
+theorem body_is_slice (cs : Nat) (hcs : 0 < cs) (content : Bytes) (first last : Nat) :
+    sendBytes cs content (partialPlan false content.length first last)
+        = (content.drop first).take (last - first + 1) ∧
+    sendBytes cs content (fullPlan false content.length) = content :=
+  ⟨sendBytes_partial cs hcs content first last, sendBytes_full cs hcs content⟩
+
+/-- **Every GET answer of `FileResponse.prepare` on a regular file is self-consistent**, for
+all conditional headers, Range values, contents and chunk sizes: it is one of
+* 200, no Content-Range, `Content-Length = size`, body = the file;
+* 206, `Content-Range: bytes first-last/size` with `first ≤ last < size`,
+  `Content-Length = last-first+1`, body = `file[first .. last]` exactly;
+* 416, `Content-Range: bytes */size`, no body;
+* 304 or 412, no Content-Range, no body. -/
+theorem response_consistent (cs : Nat) (hcs : 0 < cs) (cur : Str) (mt : Nat) (h : CondHdrs)
+    (rng : Option Str) (content : Bytes) :
+    let r := fileResponse cs false cur mt h rng content
+    (r.status = 200 ∧ r.contentRange = .absent ∧ r.contentLength = some (content.length : Int) ∧
+        r.body = content) ∨
+    (r.status = 206 ∧ ∃ first last, first ≤ last ∧ last < content.length ∧
+        r.contentRange = .range first last content.length ∧
+        r.contentLength = some ((last - first + 1 : Nat) : Int) ∧
+        r.body = (content.drop first).take (last - first + 1)) ∨
+    (r.status = 416 ∧ r.contentRange = .unsat content.length ∧ r.body = []) ∨
+    ((r.status = 304 ∨ r.status = 412) ∧ r.contentRange = .absent ∧ r.body = []) := by
+  intro r
+  show _ ∨ _ ∨ _ ∨ _
+  simp only [r, fileResponse]
+  cases makeResponse cur mt h with
+  | precondFailed => right; right; right; simp [Gen.C15.stPrecondFailed]
+  | notModified => right; right; right; simp [Gen.C15.stNotModified]
+  | send =>
+    rcases prepare_cases false (ifRangeOk mt h) rng content.length with hp | hp | ⟨f, l, hfl, hl, hp⟩
+    · left
+      simp only [hp, sendBytes_full cs hcs]
+      simp [fullPlan]
+    · right; right; left
+      simp only [hp]
+      simp [unsatPlan, sendBytes]
+    · right; left
+      simp only [hp, sendBytes_partial cs hcs]
+      exact ⟨rfl, f, l, hfl, hl, rfl, rfl, rfl⟩
+
+/-- a HEAD request never gets a body, whatever the headers -/
+theorem head_has_no_body (cs : Nat) (cur : Str) (mt : Nat) (h : CondHdrs) (rng : Option Str)
+    (content : Bytes) : (fileResponse cs true cur mt h rng content).body = [] := by
+  simp only [fileResponse]
+  cases makeResponse cur mt h <;> simp [sendBytes_head]
+
+/-- **Conditional requests follow RFC 9110 §13.2.2.**  The cascade in `_make_response` is the
+specified precedence: If-Match (strong comparison) first; If-Unmodified-Since only without
+If-Match; then If-None-Match (weak comparison); If-Modified-Since only without If-None-Match. -/
+theorem conditional_precedence (cur : Str) (mt : Nat) (h : CondHdrs) :
+    makeResponse cur mt h =
+      rfcPrecondition (h.ifMatch.map (fun ts => etagMatch cur ts false))
+        (h.unmodSince.map (fun t => decide ((mt : Int) ≤ t * nsPerSec)))
+        (h.ifNoneMatch.map (fun ts => etagMatch cur ts true))
+        (h.modSince.map (fun t => decide ((mt : Int) ≤ t * nsPerSec))) := by
+  rcases h with ⟨im, inm, um, ms, ir⟩
+  cases im <;> cases inm <;> cases um <;> cases ms <;>
+    simp [makeResponse, rfcPrecondition] <;>
+    (repeat' split) <;> simp_all <;> omega
+
 end Aio.C15
